@@ -82,6 +82,10 @@ class AORun(object):
         self.do_publish(oi, chart, f['sig'], f.get('prio'), 'handler')
       elif op == 'subscribe':
         self.do_subscribe(oi, chart, f['sig'], f.get('kind'), 'handler')
+      elif op == 'sleep':
+        # a slow handler: the chart falls behind (no lock is held here)
+        self.sim.fault('slow_handler')
+        seams._time_facade.sleep(f['d'])
       elif op == 'timed':
         # a handler arms a timed source (the usual way: a heartbeat armed on entry / on an event)
         self.uid += 1
@@ -349,6 +353,8 @@ def run_ao(sc, sched, max_steps=200000, horizon_s=None):
     sim.jitter_us = lambda ctl, d: (jr.choice(jit) if ctl.role == 'timer' else 0)
   if sc.get('stalls'):
     sim.stall_plan = {int(k): v for k, v in sc['stalls'].items()}
+    if sc.get('stall_roles'):
+      sim.stall_roles = tuple(sc['stall_roles'])
 
   def main():
     ao = seams.mods['activeobject']
